@@ -28,14 +28,14 @@ theorem q_of_locate {q : Xml → Bool} {tag : String} {cs : List Xml} {id : Key}
 /-! ### `deleteLoop` -/
 
 theorem deleteLoop_filter (q : Xml → Bool) (tag : String) (w : Warn) (mid : Option PyExc)
-    (cs : List Xml) (ids : List Key) (ws : List Warn) (hw : WfKids tag cs = true)
+    (cs : List Xml) (ids : List Key) (ws : List Warn)
     (hq : ∀ k, some k ∈ ids → ∀ c, isChild tag k c = true → q c = false) :
     (deleteLoop tag w mid cs ids ws).kids.filter q = cs.filter q := by
   induction ids generalizing cs ws with
   | nil => simp [deleteLoop]
   | cons id ids ih =>
     unfold deleteLoop
-    rw [findChildId_ok tag cs id hw]
+    rw [findChildId_ok tag cs id]
     have hq' : ∀ k, some k ∈ ids → ∀ c, isChild tag k c = true → q c = false :=
       fun k hk => hq k (List.mem_cons_of_mem _ hk)
     cases hl : locate tag cs id with
@@ -43,10 +43,10 @@ theorem deleteLoop_filter (q : Xml → Bool) (tag : String) (w : Warn) (mid : Op
       simp only
       cases mid with
       | some e => rfl
-      | none => exact ih cs _ hw hq'
+      | none => exact ih cs _ hq'
     | some i =>
       simp only
-      rw [ih (cs.eraseIdx i) ws (WfKids_eraseIdx tag cs i hw) hq']
+      rw [ih (cs.eraseIdx i) ws hq']
       apply filter_eraseIdx_of_false
       apply q_of_locate hl
       intro k hk
@@ -72,8 +72,7 @@ theorem insertDedup_filter (q : Xml → Bool) (mid : Option PyExc) (ex : List Ke
 
 /-! ### multi-source move -/
 
-theorem collectSources_mem (tag : String) (mid : Option PyExc) (cs : List Xml) (target : Option Nat)
-    (hw : WfKids tag cs = true) (ids : List Key) (acc idxs : List Nat)
+theorem collectSources_mem (tag : String) (mid : Option PyExc) (cs : List Xml) (target : Option Nat) (ids : List Key) (acc idxs : List Nat)
     (h : collectSources tag mid cs target ids acc = .ok idxs) :
     ∀ i ∈ idxs, i ∈ acc ∨ ∃ id ∈ ids, locate tag cs id = some i := by
   induction ids generalizing acc with
@@ -83,7 +82,7 @@ theorem collectSources_mem (tag : String) (mid : Option PyExc) (cs : List Xml) (
     intro i hi; exact Or.inl hi
   | cons id ids ih =>
     unfold collectSources at h
-    rw [findChildId_ok tag cs id hw] at h
+    rw [findChildId_ok tag cs id] at h
     cases hl : locate tag cs id with
     | none => rw [hl] at h; simp at h
     | some j =>
@@ -102,7 +101,7 @@ theorem collectSources_mem (tag : String) (mid : Option PyExc) (cs : List Xml) (
         · exact Or.inr ⟨id', List.mem_cons_of_mem _ hid', hl'⟩
 
 theorem moveMany_filter (q : Xml → Bool) (tag : String) (mid : Option PyExc) (cs : List Xml)
-    (t : Key) (ss : List Key) (hw : WfKids tag cs = true)
+    (t : Key) (ss : List Key)
     (hq : ∀ k, some k ∈ ss → ∀ c, isChild tag k c = true → q c = false) :
     (moveMany tag mid cs t ss).kids.filter q = cs.filter q := by
   unfold moveMany
@@ -115,7 +114,7 @@ theorem moveMany_filter (q : Xml → Bool) (tag : String) (mid : Option PyExc) (
       simp only
       apply filter_moveNodes_of_false
       intro i hi
-      rcases collectSources_mem tag mid cs target hw ss [] idxs hc i hi with h1 | ⟨id, hid, hl⟩
+      rcases collectSources_mem tag mid cs target ss [] idxs hc i hi with h1 | ⟨id, hid, hl⟩
       · cases h1
       · apply q_of_locate hl
         intro k hk
@@ -124,7 +123,7 @@ theorem moveMany_filter (q : Xml → Bool) (tag : String) (mid : Option PyExc) (
 /-! ### swap -/
 
 theorem swapTwo_filter (q : Xml → Bool) (tag : String) (mid : Option PyExc) (cs : List Xml)
-    (ids : List Key) (hw : WfKids tag cs = true)
+    (ids : List Key)
     (hq : ∀ k, some k ∈ ids → ∀ c, isChild tag k c = true → q c = false) :
     (swapTwo tag mid cs ids).kids.filter q = cs.filter q := by
   unfold swapTwo
@@ -136,7 +135,7 @@ theorem swapTwo_filter (q : Xml → Bool) (tag : String) (mid : Option PyExc) (c
       split at hu
       · cases hu; rfl
       · cases hu
-    rw [findRequired_ok tag mid cs a hw, findRequired_ok tag mid cs b hw]
+    rw [findRequired_ok tag mid cs a, findRequired_ok tag mid cs b]
     cases hla : locate tag cs a with
     | none => rfl
     | some i =>
